@@ -56,6 +56,22 @@ def run(ctx):
                 ctx.violation("census|" + name, "census feature '%s': native and VM disagree: %s" % (name, detail),
                               {"main.nano": text, "native.stdout": o.native.out, "vm.stdout": o.vm.out,
                                "cmd.txt": "nanoc main.nano -o main.bin && ./main.bin ; nano_virt main.nano --run\n"})
+        # ---- 1b. hostile string family: hash-colliding strings alive at the same time -----------
+        hostile = sweep.collision_string_programs(plain, ctx.rng("collide"), want=ctx.n(6, 40))
+        ctx.require(len(hostile) >= 3, "could not find hash-colliding string pairs (%d)" % len(hostile))
+
+        def do_h(c):
+            name, text, exp = c
+            return c, engines.observe(plain, sc.sub("hostile/" + name), {"main.nano": text})
+
+        hostile_equal = 0
+        for (name, text, exp), o in pmap(do_h, hostile):
+            kind, detail = outcome(o)
+            if kind == "equal":
+                hostile_equal += 1
+            elif kind == "differ":
+                ctx.violation("hostile|hash-colliding-strings", "two different strings with equal VM hash (%s): native and VM disagree: %s" % (name, detail),
+                              {"main.nano": text, "native.stdout": o.native.out, "vm.stdout": o.vm.out, "expected.stdout": exp})
         n_cells_equal = sum(1 for k in census_out.values() if k == "equal")
         ctx.require(n_cells_equal >= 20, "census: only %d cells comparable" % n_cells_equal)
 
@@ -118,6 +134,7 @@ def run(ctx):
             "outcomes": hist,
             "compared_output_lines": compared_lines,
             "census": census_out,
+            "hostile_colliding_string_programs": {"run": len(hostile), "equal": hostile_equal},
             "feature_histogram": sweep.feature_histogram(batch),
             "vm_opcodes_reached_in_sample": len(ops),
             "switches_off": sorted(k for k, v in gen.DEFAULT_FEATURES.items() if not v),
